@@ -16,23 +16,44 @@ pub use src::*;
 pub mod env;
 pub mod vm;
 
+pub mod c17_forwarding;
+pub mod c18_bits;
 pub mod c20_side;
 pub mod c21_bulk;
+pub mod c22_search;
 pub mod c23_header;
+pub mod gen_specs;
+pub mod c24_alias;
 pub mod c25_sanity;
+pub mod c26_freelist;
+pub mod c27_rawgrow;
+pub mod c31_resolve;
 pub mod c32_descriptor;
 pub mod c33_align;
+pub mod c34_immix;
+pub mod c35_sizeclass;
+pub mod c38_membalancer;
 pub mod c40_groupby;
 
 /// Table of all bodies for the native replayer.
 pub fn replay_table() -> Vec<(&'static str, fn(&mut Src))> {
     let mut v: Vec<(&'static str, fn(&mut Src))> = Vec::new();
+    v.extend_from_slice(c17_forwarding::TABLE);
+    v.extend_from_slice(c18_bits::TABLE);
     v.extend_from_slice(c20_side::TABLE);
     v.extend_from_slice(c21_bulk::TABLE);
+    v.extend_from_slice(c22_search::TABLE);
     v.extend_from_slice(c23_header::TABLE);
+    v.extend_from_slice(c24_alias::TABLE);
     v.extend_from_slice(c25_sanity::TABLE);
+    v.extend_from_slice(c26_freelist::TABLE);
+    v.extend_from_slice(c27_rawgrow::TABLE);
+    v.extend_from_slice(c31_resolve::TABLE);
     v.extend_from_slice(c32_descriptor::TABLE);
     v.extend_from_slice(c33_align::TABLE);
+    v.extend_from_slice(c34_immix::TABLE);
+    v.extend_from_slice(c35_sizeclass::TABLE);
+    v.extend_from_slice(c38_membalancer::TABLE);
     v.extend_from_slice(c40_groupby::TABLE);
     v
 }
